@@ -32,3 +32,4 @@ func Advance()                                     {}
 func PickStr(label string, a, b string) string     { return a }
 func IsNonNilPointer(v any) bool                   { return false }
 func At(pos string)                                {}
+func HashSum(kind string, data []byte) []byte      { return nil }
